@@ -31,7 +31,7 @@ def main():
         try:
             rc, out = sh("cd /verif && ./check %s --tier quick" % prop, timeout=2400)
         finally:
-            sh("git -C /repo checkout -- .")
+            sh("git -C /repo checkout -- . && git -C /repo clean -fdq")
         lines = [l for l in out.splitlines() if l.startswith("VIOLATION") or l.startswith("  ^")]
         res[d] = {"property": prop, "applies": True, "check_rc": rc, "detected": rc == 1, "wall_s": round(time.time() - t0),
                   "first": (lines[1][:300] if len(lines) > 1 else "")}
